@@ -25,10 +25,14 @@ class LxmlEventHandler(XmlHandler):
             An instance of the class type representing the parsed content.
         """
         if isinstance(source, (etree._ElementTree, etree._Element)):
+            # Comments and processing instructions split the text of their
+            # parent, strip them to get the text back in one piece.
+            etree.strip_tags(source, etree.Comment, etree.PI)
             ctx = etree.iterwalk(source, EVENTS)
         elif self.parser.config.process_xinclude:
             tree = etree.parse(source, base_url=self.parser.config.base_url)  # nosec
             tree.xinclude()
+            etree.strip_tags(tree, etree.Comment, etree.PI)
             ctx = etree.iterwalk(tree, EVENTS)
         else:
             ctx = etree.iterparse(
@@ -36,6 +40,7 @@ class LxmlEventHandler(XmlHandler):
                 EVENTS,
                 recover=True,
                 remove_comments=True,
+                remove_pis=True,
                 load_dtd=self.parser.config.load_dtd,
             )
 
